@@ -176,6 +176,9 @@ class WebSocketWriter:
             # Do not set self._compress if compressing is for this frame.
             # With context takeover the peer inflates every message with one
             # window, so all of them have to go through the shared context.
+            if self.compress:
+                # The peer only has to keep the negotiated window.
+                compress = min(compress, self.compress)
             return ZLibCompressor(
                 level=ZLibBackend.Z_BEST_SPEED,
                 wbits=-compress,
